@@ -2185,6 +2185,14 @@ def cases(rng, tier):
             add(_mk(f"new {wr} {'reorder' if k % 2 else 'ok'} 3 generic{k}", ["start", "tick", "join -", "call get_alignment", "call get_seqtype"], "alphabet-size"))
     for wr in ("clustalo", "muscle5"):
         add(_mk(f"new {wr} ok 3 generic4", ["start"], "alphabet-size"))     # no custom matrices: TypeError at construction
+    # sizes exactly on a limit: one sequence (refused: ValueError, before any other check), two sequences (the minimum)
+    for wr in ("clustalo", "muscle3", "muscle5", "mafft"):
+        add(_mk(f"new {wr} ok 1 prot", ["start"], "size-limits"))
+        add(_mk(f"new {wr} reorder 2 nuc", ["start", "tick", "join -", "call get_alignment", "call get_alignment_order"]
+                + (["call get_guide_tree"] if wr != "muscle5" else []), "size-limits"))
+    add(_mk("new mafft ok 1 generic25", ["start"], "size-limits"))
+    add(_mk("new muscle3 missing 1 prot", ["start"], "size-limits"))
+    add(_mk("new tantan ok 1 prot", ["start", "join -", "call get_mask"], "size-limits"))
     for k in sizes:
         codes = sorted({0, k // 2, k - 1})
         out.append({"kind": "mapseq", "ops": [f"mapseq {k} {','.join(map(str, codes))}", f"mapseq {k} _",
